@@ -178,6 +178,21 @@ func init() {
 			fr.ex().mapOrderSymbolic = a[0].(bool)
 			return nil
 		},
+		vxPkg + "Or": func(fr *frame, a []value) value {
+			return mkScalar(sym.Or(termOf(a[0], false), termOf(a[1], false)), types.Bool)
+		},
+		vxPkg + "And": func(fr *frame, a []value) value {
+			return mkScalar(sym.And(termOf(a[0], false), termOf(a[1], false)), types.Bool)
+		},
+		vxPkg + "Not": func(fr *frame, a []value) value {
+			return mkScalar(sym.Not(termOf(a[0], false)), types.Bool)
+		},
+		vxPkg + "Implies": func(fr *frame, a []value) value {
+			return mkScalar(sym.Implies(termOf(a[0], false), termOf(a[1], false)), types.Bool)
+		},
+		vxPkg + "Ite":     nativeIte,
+		vxPkg + "IteByte": nativeIte,
+		vxPkg + "IteF":    nativeIte,
 		vxPkg + "Symbolic": func(fr *frame, a []value) value { return true },
 		vxPkg + "Tier":     func(fr *frame, a []value) value { return fr.ex().cfg.Tier },
 		vxPkg + "ObserveInt": func(fr *frame, a []value) value {
@@ -1304,4 +1319,16 @@ func symParseFloat(fr *frame, s *symstr, bits int) value {
 	}
 	u := sym.DeclareUF("uf_parsefloat", sorts, sym.Real)
 	return tuple{mkScalar(sym.App(u, args...), types.Float64), iface{}}
+}
+
+func nativeIte(fr *frame, a []value) value {
+	if c, ok := a[0].(bool); ok {
+		if c {
+			return a[1]
+		}
+		return a[2]
+	}
+	k := kindOf(a[1])
+	im := isIntMode(a[1], a[2])
+	return mkScalar(sym.Ite(a[0].(sv).T, termOf(a[1], im), termOf(a[2], im)), k)
 }
